@@ -22,6 +22,11 @@ type FaultPlan struct {
 	Sticky bool  // every later call of the class fails too (a full disk stays full)
 	Err    error
 
+	// Pause, if set, is called for every call made while the plan is armed, before the call is
+	// made (and before a fault is considered): a scenario may block in it to hold one request
+	// between two file-system steps while another request runs.
+	Pause func(class, name string)
+
 	armed atomic.Bool
 	count atomic.Int64
 	fired atomic.Int64
@@ -62,6 +67,9 @@ func (p *FaultPlan) hit(class, name string) error {
 	}
 	p.seen[class]++
 	p.mu.Unlock()
+	if p.Pause != nil {
+		p.Pause(class, name)
+	}
 	if class != p.Class {
 		return nil
 	}
